@@ -329,6 +329,16 @@ def preprocessor_history_lane(ctx):
             e2.predict(np.asarray(args[0])[:4])
             e2.decision_function(np.asarray(args[0])[:4])
             d1, t1 = e2.pair_distance(pidx), e2.transform(np.arange(3))
+            # a pickle round trip and a deep copy are the identity on the FITTED state, also while the hyper-parameter
+            # `preprocessor` already names other points (set_params without a refit)
+            import copy
+            for how, e3 in (('pickle round trip', pickle.loads(pickle.dumps(e2))), ('copy.deepcopy', copy.deepcopy(e2))):
+              d3, t3 = e3.pair_distance(pidx), e3.transform(np.arange(3))
+              ctx.count('queries_preserve_state', 1)
+              if not (np.array_equal(d0, d3) and np.array_equal(t0, t3)):
+                ctx.fail_input('queries_preserve_state', '%s: fit on indicators, set_params(preprocessor=<other array>) without a refit, %s: the copy answers queries on indicators from other points than the original' % (name, how),
+                               dict(estimator=name, A=A.tolist(), B=B.tolist(), history='fit(indices; preprocessor=A), set_params(preprocessor=B), ' + how + ', pair_distance(indices)'),
+                               observed=np.asarray(d3).tolist(), expected=np.asarray(d0).tolist())
           ctx.count('queries_preserve_state', 1)
           if not (np.array_equal(d0, d1) and np.array_equal(t0, t1)):
             ctx.fail_input('queries_preserve_state', '%s: after set_params(preprocessor=<other array>), predict / decision_function change what pair_distance / transform answer (the fitted preprocessor is replaced by a query)' % name,
@@ -341,6 +351,35 @@ def preprocessor_history_lane(ctx):
           ctx.fail_input('preprocessor_history', '%s: fit, set_params(preprocessor=<other array>), fit with the same indicators learns another model than %s (history %s)' % (name, what, hist),
                          dict(estimator=name, history=hist, A=A.tolist(), B=np.asarray(second).tolist()))
           break
+
+
+def seed_type_lane(ctx):
+  """an integer seed is a seed whatever integer type holds it (an element of np.arange, np.int32 ...): the supervised learners
+  are deterministic under it and learn the model of the same Python int, whatever the state of numpy's global generator"""
+  rng = np.random.default_rng([ctx.seed, 91])
+  for name in ('ITML_Supervised', 'LSML_Supervised', 'MMC_Supervised', 'SDML_Supervised', 'RCA_Supervised', 'SCML_Supervised'):
+    data = fits.make_data(rng, d=int(rng.integers(2, 5)))
+    kw0 = fits.sdml_fix_balance(name, fits.base_kwargs(name, data), data)
+    sd = int(rng.integers(0, 1000))
+    args = fits.fit_args(name, data)
+    ctx.count('seed_types', 1)
+    try:
+      with warnings.catch_warnings():
+        warnings.simplefilter('ignore')
+        ref = np.asarray(fits.make_estimator(name, dict(kw0, random_state=sd)).fit(*args).components_)
+        outs = []
+        for k, typed in enumerate((np.int64(sd), np.int32(sd), np.arange(sd, sd + 1)[0], np.int64(sd))):
+          np.random.seed(1000 + k)          # the global stream is in another state each time
+          outs.append((type(typed).__name__, np.asarray(fits.make_estimator(name, dict(kw0, random_state=typed)).fit(*args).components_)))
+    except Exception as ex:
+      ctx.fail_input('seed_types', '%s with a numpy integer random_state raises %s' % (name, type(ex).__name__), dict(estimator=name, seed=sd),
+                     observed=str(ex)[:200])
+      continue
+    for tn, got in outs:
+      if got.shape != ref.shape or not np.array_equal(got, ref, equal_nan=True):
+        ctx.fail_input('seed_types', '%s: random_state=%s(%d) does not learn the model of random_state=%d (the fit depends on the global generator: not deterministic)' % (name, tn, sd, sd),
+                       dict(estimator=name, seed=sd, seed_type=tn, X=data['X'].tolist(), y=data['y'].tolist()), observed=got.tolist(), expected=ref.tolist())
+        break
 
 
 def run(ctx):
@@ -362,6 +401,7 @@ def run(ctx):
       rng = np.random.default_rng([ctx.seed, fits.NAMES.index(name), r])
       run_history(ctx, name, rng, nsets=int(rng.integers(2, 4)), length=int(rng.integers(3, 9)))
   preprocessor_history_lane(ctx)
+  seed_type_lane(ctx)
   # a wide data set (520 x 90, overlapping classes, 2 components): scikit-learn's PCA then uses its RANDOMIZED solver, so the
   # 'pca' initialisation draws random numbers -- with an integer random_state two fits and a clone still agree
   from sklearn.base import clone as _clone
